@@ -1,9 +1,12 @@
-(** C01: correctness of the composite operations that are SELECT-class rewrites of the frame
-    (fillna, replace, toDF): for every reachable state and every input they evaluate to their PySpark meaning
-    and re-establish the chain invariant -- PROVIDED the method's decorator claims at least SELECT
-    ([composite_ok], a decidable side condition on the generated decorator table).  This is the obligation
-    that fails for a fillna/replace tagged Operation.FROM (the defect repaired in /repo). *)
-From SF Require Import Model.Chain Model.ChainProof Model.ChainExt.
+(** C01: correctness of the composite operations inside chains, for every reachable state and every input:
+    fillna / replace (CASE projections), toDF (re-aliasing of the open SELECT) and dropna (append num_nulls;
+    WHERE num_nulls < k in a fresh block; SELECT the original columns) evaluate to their PySpark meaning and
+    re-establish the (generalised, [ChainG.GInv]) chain invariant -- PROVIDED the decorators of fillna, replace
+    and toDF claim at least SELECT ([composite_ok], decidable side condition on the generated decorator table;
+    the obligation that fails for a fillna/replace tagged Operation.FROM or an undecorated toDF, the defects
+    repaired in /repo).  [xchain_correct]: every list over the core operations, withColumn / withColumnRenamed /
+    drop, fillna, replace, toDF and dropna, on the decidable domain [xs_ok]. *)
+From SF Require Import Model.Chain Model.ChainProof Model.ChainG Model.ChainExt.
 From Coq Require Import Lia.
 Open Scope Z_scope.
 
@@ -14,6 +17,107 @@ Lemma mem_opk_in k l : mem_opk k l = true -> In k l.
 Proof.
   unfold mem_opk. intro H. apply existsb_exists in H. destruct H as [x [Hx E]].
   apply opk_eqb_eq in E. subst. exact Hx.
+Qed.
+
+Lemma nodupb_complete l : NoDup l -> nodupb l = true.
+Proof.
+  induction 1 as [|x l Hn Hd IH]; simpl; [reflexivity|].
+  rewrite IH, andb_true_r. apply negb_true_iff.
+  destruct (mem x l) eqn:E; [|reflexivity]. apply mem_In in E. contradiction.
+Qed.
+
+Lemma NoDup_app_snoc {A} (l : list A) x : NoDup l -> ~ In x l -> NoDup (l ++ [x]).
+Proof.
+  induction 1 as [|y l Hy Hd IH]; simpl; intro Hx.
+  - constructor; [simpl; tauto | constructor].
+  - constructor.
+    + rewrite in_app_iff. simpl. intros [H|[H|[]]]; [contradiction | subst; apply Hx; left; reflexivity].
+    + apply IH. intro H. apply Hx. right. exact H.
+Qed.
+
+Lemma out_cols_app a b : out_cols (a ++ b) = out_cols a ++ out_cols b.
+Proof. unfold out_cols. apply map_app. Qed.
+
+(** ** Lookups in a frame extended on the right *)
+Lemma index_of_app_left n cs ex : In n cs -> index_of n (cs ++ ex) = index_of n cs.
+Proof.
+  induction cs as [|x cs IH]; simpl; intro H; [contradiction|].
+  destruct (String.eqb x n) eqn:E; [reflexivity|].
+  destruct H as [H|H]; [subst; rewrite String.eqb_refl in E; discriminate|].
+  rewrite IH by exact H. reflexivity.
+Qed.
+
+Lemma lookup_app_left cs ex (r rx : row) n :
+  In n cs -> List.length r = List.length cs -> lookup (cs ++ ex) (r ++ rx) n = lookup cs r n.
+Proof.
+  intros Hin Hl. unfold lookup. rewrite index_of_app_left by exact Hin.
+  destruct (index_of n cs) as [i|] eqn:E; [|reflexivity].
+  apply index_of_lt in E. rewrite nth_error_app1 by lia. reflexivity.
+Qed.
+
+Lemma index_of_snoc n cs : ~ In n cs -> index_of n (cs ++ [n]) = Some (List.length cs).
+Proof.
+  induction cs as [|x cs IH]; simpl; intro H.
+  - rewrite String.eqb_refl. reflexivity.
+  - destruct (String.eqb x n) eqn:E.
+    + apply String.eqb_eq in E. subst. exfalso. apply H. left. reflexivity.
+    + rewrite IH by (intro Hi; apply H; right; exact Hi). reflexivity.
+Qed.
+
+Lemma lookup_snoc cs (r : row) n v :
+  ~ In n cs -> List.length r = List.length cs -> lookup (cs ++ [n]) (r ++ [v]) n = Some v.
+Proof.
+  intros Hn Hl. unfold lookup. rewrite index_of_snoc by exact Hn.
+  rewrite nth_error_app2 by lia. rewrite Hl, Nat.sub_diag. reflexivity.
+Qed.
+
+Lemma proj_app_left cs ex (r rx : row) :
+  List.length r = List.length cs -> proj (cs ++ ex) (passthrough cs) (r ++ rx) = proj cs (passthrough cs) r.
+Proof.
+  intro Hl. unfold proj, passthrough. rewrite !map_map. cbn [fst].
+  apply map_ext_in. intros n Hn. simpl. rewrite lookup_app_left; auto.
+Qed.
+
+(** ** dropna on frames: the three sequential steps of the emulation are PySpark's dropna *)
+Lemma ecols_num_nulls n chk : In n (ecols (num_nulls_expr chk)) -> In n chk.
+Proof.
+  unfold num_nulls_expr. destruct chk as [|c0 chk]; [simpl; tauto|]. cbn [map].
+  assert (H : forall es acc, In n (ecols (fold_left (fun a x => EBin Add a x)
+                                                    (map (fun c => EIf (EIsNull (ECol c)) one zero) es) acc)) ->
+                             In n (ecols acc) \/ In n es).
+  { induction es as [|e es IH]; intros acc Hin; cbn [map fold_left] in Hin; [left; exact Hin|].
+    destruct (IH _ Hin) as [Ha|Ha]; [|right; right; exact Ha].
+    simpl in Ha. rewrite in_app_iff in Ha. destruct Ha as [Ha|Ha]; [left; exact Ha|].
+    simpl in Ha. destruct Ha as [Ha|[]]. right; left; exact Ha. }
+  intro Hin. destruct (H _ _ Hin) as [Ha|Ha]; [|right; exact Ha].
+  simpl in Ha. destruct Ha as [Ha|[]]. left; exact Ha.
+Qed.
+
+Definition nn : string := "num_nulls"%string.
+Definition dropna_test (how : bool) (thresh : option Z) (chk : list string) : expr :=
+  EBin Lt (ECol nn) (ELit (VInt (min_num_nulls how thresh (Z.of_nat (List.length chk))))).
+
+Lemma dropna_frames F how thresh chk :
+  wf_frame F -> NoDup (cols F) -> ~ In nn (cols F) ->
+  spec_step (OSelect (passthrough (cols F)))
+    (spec_step (OWhere (dropna_test how thresh chk))
+       (spec_step (OSelect (passthrough (cols F) ++ [(num_nulls_expr chk, nn)])) F))
+  = mkFrame (cols F) (filter (dropna_keep (cols F) how thresh chk) (rows F)).
+Proof.
+  intros Hwf Hnd Hnn. destruct F as [cs R]. cbn [cols rows] in *.
+  unfold spec_step. cbn [cols rows]. rewrite out_cols_passthrough. f_equal.
+  rewrite out_cols_app, out_cols_passthrough. cbn [out_cols map snd].
+  rewrite (filter_map_swap _ (dropna_keep cs how thresh chk)).
+  - rewrite map_map. rewrite <- (map_id (filter _ R)) at 2. apply map_ext_in.
+    intros r Hr. apply filter_In in Hr. destruct Hr as [Hr _]. specialize (Hwf r Hr). cbn [cols] in Hwf.
+    unfold proj at 2. rewrite map_app. fold (proj cs (passthrough cs) r).
+    rewrite proj_passthrough by assumption. cbn [map].
+    rewrite proj_app_left by assumption. apply proj_passthrough; assumption.
+  - intros r Hr. specialize (Hwf r Hr). cbn [cols] in Hwf.
+    unfold proj. rewrite map_app. fold (proj cs (passthrough cs) r).
+    rewrite proj_passthrough by assumption. cbn [map fst].
+    rewrite <- (dropna_emulation_ok cs r how thresh chk).
+    unfold holds, dropna_test. cbn [eval]. rewrite lookup_snoc by assumption. reflexivity.
 Qed.
 
 Section ExtProof.
@@ -27,68 +131,227 @@ Section ExtProof.
       let new := if opk_eqb k NO_OP then l else k in
       (5 <=? claim new) && mem_opk new (reach c) &&
       (wrap_needed c l new || (claim l <? 5))) (reach c).
+  (** side condition for dropna's decorator: any kind the clause-ordering table knows *)
+  Definition kind_reach_ok (k : opk) : bool :=
+    forallb (fun l => mem_opk (if opk_eqb k NO_OP then l else k) (reach c)) (reach c).
 
-  Lemma pre_init_inv d ics input :
-    InvR c d ics ->
-    InvR c (pre_init c d) ics /\ eval_df (pre_init c d) input = eval_df d input.
+  (** ** Structure of one step *)
+  Lemma cur_cols_wrap d : cur_cols (wrap d) = cur_cols d.
+  Proof. unfold cur_cols, wrap. cbn [cur pass_block b_sel]. apply out_cols_passthrough. Qed.
+  Lemma cur_cols_pre_init d : cur_cols (pre_init c d) = cur_cols d.
   Proof.
-    intros HI. unfold pre_init. destruct (opk_eqb (last d) INIT) eqn:Ei; [|tauto].
-    destruct HI as [HI Hr]. destruct (init_wraps c).
-    - split; [split; [apply inv_wrap; exact HI | unfold reach; simpl; tauto]|].
-      unfold eval_df; simpl. apply wrap_eval. destruct HI as (_&_&_&_&Hn); exact Hn.
-    - split; [|reflexivity]. split; [|unfold reach; simpl; tauto].
-      destruct (last d) eqn:El; try discriminate.
-      unfold Inv in *. rewrite El in HI. exact HI.
+    unfold pre_init. destruct (opk_eqb (last d) INIT); [|reflexivity].
+    destruct (init_wraps c); [apply cur_cols_wrap | reflexivity].
+  Qed.
+  Lemma cur_cols_pre d o : cur_cols (pre_wrap c o (pre_init c d)) = cur_cols d.
+  Proof.
+    unfold pre_wrap. destruct (wrap_needed c _ _); [rewrite cur_cols_wrap|]; apply cur_cols_pre_init.
+  Qed.
+  Lemma src_cols_pre d o ics :
+    src_cols (pre_wrap c o (pre_init c d)) ics = src_cols d ics \/
+    src_cols (pre_wrap c o (pre_init c d)) ics = cur_cols d.
+  Proof.
+    unfold pre_wrap. destruct (wrap_needed c _ _).
+    - right. rewrite src_cols_wrap. apply cur_cols_pre_init.
+    - unfold pre_init. destruct (opk_eqb (last d) INIT); [|left; reflexivity].
+      destruct (init_wraps c); [right; apply (src_cols_wrap d ics) | left; reflexivity].
+  Qed.
+  Lemma src_cols_step d o ics :
+    src_cols (step c d o) ics = src_cols (pre_wrap c o (pre_init c d)) ics.
+  Proof. reflexivity. Qed.
+
+  Lemma hfree_vis d ics e : (forall n, In n (ecols e) -> In n (cur_cols d)) -> hfree (hidden_of d ics) e = true.
+  Proof.
+    intro H. unfold hfree. apply forallb_forall. intros n Hn. apply negb_true_iff.
+    destruct (mem n (hidden_of d ics)) eqn:E; [|reflexivity].
+    apply mem_In in E. unfold hidden_of, hid_cols in E. apply filter_In in E. destruct E as [_ E].
+    apply negb_true_iff in E. specialize (H n Hn). apply mem_In in H. unfold cur_cols in H. congruence.
+  Qed.
+  Lemma hf_ok_select_vis d ics items :
+    (forall it n, In it items -> In n (ecols (fst it)) -> In n (cur_cols d)) -> hf_ok c d ics (OSelect items) = true.
+  Proof.
+    intro H. unfold hf_ok. apply forallb_forall. intros it Hit. apply hfree_vis.
+    intros n Hn. rewrite cur_cols_pre. eapply H; eauto.
+  Qed.
+  Lemma hf_ok_where_vis d ics e :
+    (forall n, In n (ecols e) -> In n (cur_cols d)) -> hf_ok c d ics (OWhere e) = true.
+  Proof. intro H. unfold hf_ok. apply hfree_vis. intros n Hn. rewrite cur_cols_pre. auto. Qed.
+
+  (** in a state that satisfies the original invariant nothing is hidden: [hf_ok] is vacuous there *)
+  Lemma filter_all_false {A} (f : A -> bool) m : (forall a, In a m -> f a = false) -> filter f m = [].
+  Proof.
+    induction m as [|y m IH]; intro H; simpl; [reflexivity|].
+    rewrite (H y) by (left; reflexivity). apply IH. intros; apply H; right; assumption.
+  Qed.
+  Lemma hid_cols_self l : hid_cols l l = [].
+  Proof.
+    unfold hid_cols. apply filter_all_false. intros a Ha. apply negb_false_iff. apply mem_In. exact Ha.
   Qed.
 
-  Lemma ready_select d0 ics input new :
-    InvR c d0 ics ->
-    (wrap_needed c (last d0) new || (claim (last d0) <? 5)) = true ->
-    let d1 := if wrap_needed c (last d0) new then wrap d0 else d0 in
-    Simple (cur d1) (src_cols d1 ics) /\ eval_df d1 input = eval_df d0 input /\ InvR c d1 ics.
+  Lemma hfree_nil e : hfree [] e = true.
+  Proof. unfold hfree. apply forallb_forall. reflexivity. Qed.
+  Lemma hidden_wrap d ics : hidden_of (wrap d) ics = [].
   Proof.
-    intros [HI Hr] Hw. destruct (wrap_needed c (last d0) new) eqn:Ew; simpl.
-    - pose proof (ready_wrap d0 ics NSelect (last d0) HI) as HR.
-      change (set_last (wrap d0) (last d0)) with (wrap d0) in HR.
-      destruct HR as (HS & _ & _ & _).
-      split; [apply HS; simpl; lia|]. split.
-      + apply wrap_eval. destruct HI as (_&_&_&_&Hn); exact Hn.
-      + split; [|exact Hr]. pose proof (inv_wrap d0 ics (last d0) HI) as H.
-        change (set_last (wrap d0) (last d0)) with (wrap d0) in H. exact H.
-    - simpl in Hw. apply Z.ltb_lt in Hw.
-      destruct HI as (Ha & Hb & Hc & Hn1 & Hn2).
-      destruct (Ha Hw) as [Ha1 Ha2].
-      split; [unfold Simple; rewrite Hb, Hc by lia; tauto|]. split; [reflexivity|].
-      split; [|exact Hr]. unfold Inv; tauto.
+    unfold hidden_of. rewrite src_cols_wrap. unfold wrap. cbn [cur pass_block b_sel].
+    rewrite out_cols_passthrough. apply hid_cols_self.
+  Qed.
+  Lemma hidden_clean d ics : Inv d ics -> claim (last d) < 5 -> hidden_of d ics = [].
+  Proof.
+    intros (Ha & _) H5. destruct (Ha H5) as [Hs _]. unfold hidden_of. rewrite Hs, out_cols_passthrough.
+    apply hid_cols_self.
+  Qed.
+
+  (** the new side condition is vacuous in every state that satisfies the original invariant [Chain.Inv]
+      (in particular along every chain without dropna) *)
+  Theorem hf_ok_clean d ics o : InvR c d ics -> hf_ok c d ics o = true.
+  Proof.
+    intros HI.
+    assert (H0 : hidden_of (pre_init c d) ics = [] \/
+                 (Inv (pre_init c d) ics /\ In (last (pre_init c d)) (reach c))).
+    { destruct HI as [HI Hr]. unfold pre_init. destruct (opk_eqb (last d) INIT) eqn:Ei; [|right; tauto].
+      destruct (init_wraps c).
+      - left. apply (hidden_wrap d ics).
+      - right. split; [|unfold reach; simpl; tauto].
+        destruct (last d) eqn:El; try discriminate.
+        unfold Inv in *. cbn [set_last last cur]. rewrite El in HI. exact HI. }
+    assert (H1 : forall n, crank n <= 5 -> name_of o = n ->
+                 hidden_of (pre_wrap c o (pre_init c d)) ics = []).
+    { intros n Hn En. unfold pre_wrap.
+      destruct (wrap_needed c (last (pre_init c d)) (new_kind c o (last (pre_init c d)))) eqn:Ew;
+        [apply hidden_wrap|].
+      destruct H0 as [H0|[HI0 Hr0]]; [exact H0|].
+      apply hidden_clean; [exact HI0|].
+      pose proof (gpair_ok_of c Hcfg (pre_init c d) ics (name_of o) (conj (inv_ginv _ _ HI0) Hr0)) as Hp.
+      unfold pair_ok in Hp. fold (new_kind c o (last (pre_init c d))) in Hp. rewrite Ew in Hp.
+      apply andb_true_iff in Hp. destruct Hp as [_ Hp]. simpl in Hp.
+      apply andb_true_iff in Hp. destruct Hp as [Hle Hsel]. apply Z.leb_le in Hle. rewrite En in *.
+      apply orb_true_iff in Hsel. destruct Hsel as [Hsel|Hsel].
+      - apply negb_true_iff, Z.eqb_neq in Hsel. lia.
+      - apply Z.ltb_lt in Hsel. exact Hsel. }
+    unfold hf_ok. destruct o as [items|e|ks|n|]; try reflexivity.
+    - rewrite (H1 NSelect) by (simpl; auto; lia). apply forallb_forall. intros; apply hfree_nil.
+    - rewrite (H1 NWhere) by (simpl; auto; lia). apply hfree_nil.
   Qed.
 
   (** after a select step the open block has exactly the new list and no later clause *)
-  Lemma step_select_post d ics items :
-    InvR c d ics ->
+  Lemma gstep_select_post d ics items :
+    GInvR c d ics ->
     let d2 := step c d (OSelect items) in
     b_sel (cur d2) = items /\ b_distinct (cur d2) = false /\ b_order (cur d2) = [] /\ b_limit (cur d2) = None.
   Proof.
-    intros HI. destruct (pre_init_inv d ics (mkFrame ics []) HI) as [HI0 _].
-    unfold step. set (d0 := pre_init c d) in *. clearbody d0.
-    pose proof (pair_ok_of c Hcfg d0 ics (OSelect items) HI0) as Hp.
-    unfold pair_ok in Hp. fold (new_kind c (OSelect items) (last d0)) in Hp.
-    set (new := new_kind c (OSelect items) (last d0)) in *.
-    apply andb_true_iff in Hp. destruct Hp as [_ Hp].
-    assert (Hw : (wrap_needed c (last d0) new || (claim (last d0) <? 5)) = true).
-    { destruct (wrap_needed c (last d0) new); [reflexivity|]. simpl in *.
-      apply andb_true_iff in Hp. destruct Hp as [_ Hsel]. simpl in Hsel. exact Hsel. }
-    destruct (ready_select d0 ics (mkFrame ics []) new HI0 Hw) as ((Hs & Hd & Ho & Hl) & _ & _).
-    unfold pre_wrap. fold new.
-    destruct (wrap_needed c (last d0) new); simpl in *; auto.
+    intros HI. destruct (gpre_init c d ics (mkFrame ics []) HI) as [HI0 _].
+    destruct (gpre_wrap c Hcfg (pre_init c d) ics (mkFrame ics []) (OSelect items) HI0) as [(HS & _) _].
+    destruct (HS ltac:(simpl; lia)) as (_ & _ & Hd & Ho & Hl).
+    unfold step. cbn [cur body set_sel b_sel b_distinct b_order b_limit]. auto.
   Qed.
 
-  Lemma nodupb_complete l : NoDup l -> nodupb l = true.
+  (** after a where step the open block is a filter + projection onto the columns it had before *)
+  Lemma gstep_where_post d ics e :
+    GInvR c d ics ->
+    let d2 := step c d (OWhere e) in
+    GSimple (cur d2) (src_cols d2 ics) /\ cur_cols d2 = cur_cols d.
   Proof.
-    induction 1 as [|x l Hn Hd IH]; simpl; [reflexivity|].
-    rewrite IH, andb_true_r. apply negb_true_iff.
-    destruct (mem x l) eqn:E; [|reflexivity].
-    unfold mem in E. apply existsb_exists in E. destruct E as [y [Hy Ey]].
-    apply String.eqb_eq in Ey. subst. contradiction.
+    intros HI. destruct (gpre_init c d ics (mkFrame ics []) HI) as [HI0 _].
+    destruct (gpre_wrap c Hcfg (pre_init c d) ics (mkFrame ics []) (OWhere e) HI0) as [(HS & _) _].
+    specialize (HS ltac:(simpl; lia)).
+    split.
+    - rewrite src_cols_step. unfold step. cbn [cur body]. exact HS.
+    - unfold step, cur_cols. cbn [cur body set_where b_sel]. apply (cur_cols_pre d (OWhere e)).
+  Qed.
+
+  Lemma gready_select d0 ics input new :
+    GInvR c d0 ics ->
+    (wrap_needed c (last d0) new || (claim (last d0) <? 5)) = true ->
+    let d1 := if wrap_needed c (last d0) new then wrap d0 else d0 in
+    GSimple (cur d1) (src_cols d1 ics) /\ eval_df d1 input = eval_df d0 input /\ GInvR c d1 ics /\
+    cur_cols d1 = cur_cols d0 /\ last d1 = last d0.
+  Proof.
+    intros [HI Hr] Hw. destruct (wrap_needed c (last d0) new) eqn:Ew; simpl.
+    - assert (Hn : NoDup (out_cols (b_sel (cur d0)))) by (destruct HI as (_&_&_&_&Hn); exact Hn).
+      pose proof (gready_wrap d0 ics NSelect (last d0) Hn) as HR.
+      change (set_last (wrap d0) (last d0)) with (wrap d0) in HR.
+      destruct HR as (HS & _ & _ & _).
+      split; [apply HS; simpl; lia|]. split; [apply wrap_eval; exact Hn|].
+      split; [|split; [apply cur_cols_wrap | reflexivity]].
+      split; [|exact Hr]. pose proof (ginv_wrap d0 ics (last d0) Hn) as H.
+      change (set_last (wrap d0) (last d0)) with (wrap d0) in H. exact H.
+    - simpl in Hw. apply Z.ltb_lt in Hw.
+      destruct HI as (Ha & Hb & Hc & Hn1 & Hn2).
+      destruct (Ha Hw) as (Ha1 & Ha2 & Ha3).
+      split; [unfold GSimple; rewrite Hb, Hc by lia; tauto|]. split; [reflexivity|].
+      split; [|split; reflexivity]. split; [|exact Hr]. unfold GInv; tauto.
+  Qed.
+
+  (** the outer wrapper of a composite method *)
+  Lemma outer_pre_ok k d ics input :
+    GInvR c d ics ->
+    let d1 := fst (outer_pre c k d) in
+    eval_df d1 input = eval_df d input /\ GInvR c d1 ics /\ cur_cols d1 = cur_cols d /\
+    opk_eqb (last d1) INIT = false /\
+    (In (if opk_eqb k NO_OP then last (pre_init c d) else k) (reach c) -> In (snd (outer_pre c k d)) (reach c)).
+  Proof.
+    intros HI. destruct (gpre_init c d ics input HI) as [HI0 He0].
+    unfold outer_pre. cbn [fst snd]. set (d0 := pre_init c d) in *.
+    set (new := if opk_eqb k NO_OP then last d0 else k).
+    assert (Hl0 : opk_eqb (last d0) INIT = false) by apply pre_init_last.
+    assert (Hc0 : cur_cols d0 = cur_cols d) by apply cur_cols_pre_init.
+    destruct (wrap_needed c (last d0) new).
+    - destruct HI0 as [HI0 Hr0].
+      assert (Hn : NoDup (out_cols (b_sel (cur d0)))) by (destruct HI0 as (_&_&_&_&Hn); exact Hn).
+      split; [rewrite <- He0; apply wrap_eval; exact Hn|].
+      split; [|split; [rewrite cur_cols_wrap; exact Hc0 | split; [exact Hl0 | auto]]].
+      split; [|exact Hr0]. pose proof (ginv_wrap d0 ics (last d0) Hn) as H.
+      change (set_last (wrap d0) (last d0)) with (wrap d0) in H. exact H.
+    - split; [exact He0|]. split; [exact HI0|]. split; [exact Hc0|]. split; [exact Hl0 | auto].
+  Qed.
+
+  (** a SELECT-class composite: outer wrapper of kind [k], inner select of [items_of (current columns)] *)
+  Definition composite (k : opk) (items_of : list string -> list (expr * string)) (d : df) : df :=
+    let '(d1, new) := outer_pre c k d in
+    set_last (step c d1 (OSelect (items_of (cur_cols d1)))) new.
+
+  Theorem composite_correct k items_of d ics input :
+    composite_ok k = true ->
+    (forall cs, out_cols (items_of cs) = cs) ->
+    (forall cs it n, In it (items_of cs) -> In n (ecols (fst it)) -> In n cs) ->
+    cols input = ics -> wf_frame input -> GInvR c d ics ->
+    eval_df (composite k items_of d) input
+      = spec_step (OSelect (items_of (cols (eval_df d input)))) (eval_df d input)
+    /\ GInvR c (composite k items_of d) ics.
+  Proof.
+    intros Hk Hcols Hmention Hics Hwf HI.
+    destruct (gpre_init c d ics input HI) as [HI0 He0].
+    unfold composite, outer_pre. set (d0 := pre_init c d) in *.
+    set (new := if opk_eqb k NO_OP then last d0 else k).
+    unfold composite_ok in Hk. rewrite forallb_forall in Hk.
+    destruct HI0 as [HIa Hr0]. specialize (Hk _ Hr0). fold new in Hk.
+    apply andb_true_iff in Hk. destruct Hk as [Hk Hw].
+    apply andb_true_iff in Hk. destruct Hk as [H5 Hmem]. apply Z.leb_le in H5. apply mem_opk_in in Hmem.
+    destruct (gready_select d0 ics input new (conj HIa Hr0) Hw) as (_ & He1 & HI1 & _ & _).
+    set (d1 := if wrap_needed c (last d0) new then wrap d0 else d0) in *.
+    assert (Hnd : NoDup (cur_cols d1)) by (destruct HI1 as [(_&_&_&_&Hn) _]; exact Hn).
+    assert (Hok : op_ok c d1 ics (OSelect (items_of (cur_cols d1))) = true).
+    { unfold op_ok. rewrite Hcols. apply nodupb_complete. exact Hnd. }
+    assert (Hhf : hf_ok c d1 ics (OSelect (items_of (cur_cols d1))) = true).
+    { apply hf_ok_select_vis. intros it n Hit Hn. eapply Hmention; eauto. }
+    destruct (gstep_correct c Hcfg Hlim d1 ics input _ Hics Hwf HI1 Hok Hhf) as [He2 HI2].
+    destruct (gstep_select_post d1 ics (items_of (cur_cols d1)) HI1) as (Ps & Pd & Po & Pl).
+    set (d2 := step c d1 (OSelect (items_of (cur_cols d1)))) in *.
+    split.
+    - change (eval_df (set_last d2 new) input) with (eval_df d2 input).
+      assert (Hc1 : cur_cols d1 = cols (eval_df d input)) by (rewrite <- He0, <- He1; reflexivity).
+      rewrite He2, He1, He0, Hc1. reflexivity.
+    - destruct HI2 as [(_ & _ & _ & Hn1 & Hn2) _].
+      split; [|exact Hmem].
+      unfold GInv. change (cur (set_last d2 new)) with (cur d2).
+      change (last (set_last d2 new)) with new.
+      change (src_cols (set_last d2 new) ics) with (src_cols d2 ics).
+      refine (conj _ (conj _ (conj _ (conj _ _)))).
+      + intro; lia.
+      + intro; exact Po.
+      + intro; exact Pl.
+      + exact Hn1.
+      + exact Hn2.
   Qed.
 
   Lemma out_cols_fill cs kvs : out_cols (fill_items cs kvs) = cs.
@@ -101,84 +364,226 @@ Section ExtProof.
     unfold out_cols, replace_items. rewrite map_map. rewrite <- (map_id cs) at 2.
     apply map_ext. intro a. destruct (mem a tgt); reflexivity.
   Qed.
-
-  (** a SELECT-class composite: outer wrapper of kind [k], inner select of [items_of (current columns)] *)
-  Definition composite (k : opk) (items_of : list string -> list (expr * string)) (d : df) : df :=
-    let '(d1, new) := outer_pre c k d in
-    set_last (step c d1 (OSelect (items_of (cur_cols d1)))) new.
-
-  Theorem composite_correct k items_of d ics input :
-    composite_ok k = true ->
-    (forall cs, out_cols (items_of cs) = cs) ->
-    cols input = ics -> wf_frame input -> InvR c d ics ->
-    eval_df (composite k items_of d) input
-      = spec_step (OSelect (items_of (cols (eval_df d input)))) (eval_df d input)
-    /\ InvR c (composite k items_of d) ics.
+  Lemma ecols_fill cs kvs it n : In it (fill_items cs kvs) -> In n (ecols (fst it)) -> In n cs.
   Proof.
-    intros Hk Hcols Hics Hwf HI.
-    destruct (pre_init_inv d ics input HI) as [HI0 He0].
-    unfold composite, outer_pre. set (d0 := pre_init c d) in *.
-    set (new := if opk_eqb k NO_OP then last d0 else k).
-    unfold composite_ok in Hk. rewrite forallb_forall in Hk.
-    destruct HI0 as [HIa Hr0]. specialize (Hk _ Hr0). fold new in Hk.
-    apply andb_true_iff in Hk. destruct Hk as [Hk Hw].
-    apply andb_true_iff in Hk. destruct Hk as [H5 Hmem]. apply Z.leb_le in H5. apply mem_opk_in in Hmem.
-    destruct (ready_select d0 ics input new (conj HIa Hr0) Hw) as (_ & He1 & HI1).
-    set (d1 := if wrap_needed c (last d0) new then wrap d0 else d0) in *.
-    assert (Hnd : NoDup (cur_cols d1)) by (destruct HI1 as [(_&_&_&_&Hn) _]; exact Hn).
-    assert (Hok : op_ok c d1 ics (OSelect (items_of (cur_cols d1))) = true).
-    { unfold op_ok. rewrite Hcols. apply nodupb_complete. exact Hnd. }
-    destruct (step_correct c Hcfg Hlim d1 ics input _ Hics Hwf HI1 Hok) as [He2 HI2].
-    destruct (step_select_post d1 ics (items_of (cur_cols d1)) HI1) as (Ps & Pd & Po & Pl).
-    set (d2 := step c d1 (OSelect (items_of (cur_cols d1)))) in *.
-    split.
-    - change (eval_df (set_last d2 new) input) with (eval_df d2 input).
-      assert (Hc1 : cur_cols d1 = cols (eval_df d input)) by (rewrite <- He0, <- He1; reflexivity).
-      rewrite He2, He1, He0, Hc1. reflexivity.
-    - destruct HI2 as [(_ & _ & _ & Hn1 & Hn2) _].
-      split; [|exact Hmem].
-      unfold Inv. change (cur (set_last d2 new)) with (cur d2).
-      change (last (set_last d2 new)) with new.
-      change (src_cols (set_last d2 new) ics) with (src_cols d2 ics).
-      refine (conj _ (conj _ (conj _ (conj _ _)))).
-      + intro; lia.
-      + intro; exact Po.
-      + intro; exact Pl.
-      + exact Hn1.
-      + exact Hn2.
+    unfold fill_items. intros Hit Hn. apply in_map_iff in Hit. destruct Hit as [a [<- Ha]].
+    destruct (assoc a kvs); simpl in Hn; intuition (subst; auto).
+  Qed.
+  Lemma ecols_replace_expr a ps n : In n (ecols (replace_expr a ps)) -> n = a.
+  Proof.
+    induction ps as [|[o v] ps IH]; simpl; intro H.
+    - destruct H as [H|[]]; auto.
+    - destruct H as [H|H]; [auto|]. apply IH. exact H.
+  Qed.
+  Lemma ecols_replace cs tgt ps it n : In it (replace_items cs tgt ps) -> In n (ecols (fst it)) -> In n cs.
+  Proof.
+    unfold replace_items. intros Hit Hn. apply in_map_iff in Hit. destruct Hit as [a [<- Ha]].
+    destruct (mem a tgt); simpl in Hn.
+    - apply ecols_replace_expr in Hn. subst. exact Ha.
+    - destruct Hn as [Hn|[]]. subst. exact Ha.
   Qed.
 
   Variable deco : string -> option opk.
 
   Theorem fillna_correct k d ics input kvs :
     deco "fillna"%string = Some k -> composite_ok k = true ->
-    cols input = ics -> wf_frame input -> InvR c d ics ->
+    cols input = ics -> wf_frame input -> GInvR c d ics ->
     exists d', step_x c deco d (XFillna kvs) = Some d' /\
-               eval_df d' input = spec_x (XFillna kvs) (eval_df d input) /\ InvR c d' ics.
+               eval_df d' input = spec_x (XFillna kvs) (eval_df d input) /\ GInvR c d' ics.
   Proof.
     intros Hd Hk Hics Hwf HI.
     exists (composite k (fun cs => fill_items cs kvs) d). split.
     - unfold step_x, composite. rewrite Hd. destruct (outer_pre c k d). reflexivity.
-    - apply composite_correct; auto. intro cs. apply out_cols_fill.
+    - apply composite_correct; auto.
+      + intro cs. apply out_cols_fill.
+      + intros cs it n. apply ecols_fill.
   Qed.
 
   Theorem replace_correct k d ics input tgt ps :
     deco "replace"%string = Some k -> composite_ok k = true ->
-    cols input = ics -> wf_frame input -> InvR c d ics ->
+    cols input = ics -> wf_frame input -> GInvR c d ics ->
     exists d', step_x c deco d (XReplace tgt ps) = Some d' /\
-               eval_df d' input = spec_x (XReplace tgt ps) (eval_df d input) /\ InvR c d' ics.
+               eval_df d' input = spec_x (XReplace tgt ps) (eval_df d input) /\ GInvR c d' ics.
   Proof.
     intros Hd Hk Hics Hwf HI.
     exists (composite k (fun cs => replace_items cs tgt ps) d). split.
     - unfold step_x, composite. rewrite Hd. destruct (outer_pre c k d). reflexivity.
-    - apply composite_correct; auto. intro cs. apply out_cols_replace.
+    - apply composite_correct; auto.
+      + intro cs. apply out_cols_replace.
+      + intros cs it n. apply ecols_replace.
   Qed.
 
-  (** ** Every list over select/where/orderBy/limit/distinct/withColumn/withColumnRenamed/drop/fillna/replace *)
+  (** ** toDF: the open SELECT's items keep their expressions and take the new names *)
+  Definition realias (sel : list (expr * string)) (ns : list string) : list (expr * string) :=
+    map (fun p => (fst (fst p), snd p)) (combine sel ns).
+  Lemma out_cols_realias sel ns : List.length ns = List.length sel -> out_cols (realias sel ns) = ns.
+  Proof.
+    unfold out_cols, realias. rewrite map_map. cbn [snd].
+    revert ns. induction sel as [|s sel IH]; intros [|n ns] H; simpl in *; try discriminate; [reflexivity|].
+    f_equal. apply IH. lia.
+  Qed.
+  Lemma map_fst_realias sel ns : List.length ns = List.length sel -> map fst (realias sel ns) = map fst sel.
+  Proof.
+    unfold realias. rewrite map_map. cbn [fst].
+    revert ns. induction sel as [|s sel IH]; intros [|n ns] H; simpl in *; try discriminate; [reflexivity|].
+    f_equal. apply IH. lia.
+  Qed.
+  Lemma proj_map_fst cs s1 s2 r : map fst s1 = map fst s2 -> proj cs s1 r = proj cs s2 r.
+  Proof.
+    intro H. unfold proj.
+    rewrite <- (map_map fst (fun e => eval cs r e) s1), <- (map_map fst (fun e => eval cs r e) s2), H. reflexivity.
+  Qed.
+
+  Theorem toDF_correct k d ics input ns :
+    deco "toDF"%string = Some k -> composite_ok k = true ->
+    List.length ns = List.length (cur_cols d) -> NoDup ns ->
+    cols input = ics -> wf_frame input -> GInvR c d ics ->
+    exists d', step_x c deco d (XToDF ns) = Some d' /\
+               eval_df d' input = spec_x (XToDF ns) (eval_df d input) /\ GInvR c d' ics.
+  Proof.
+    intros Hd Hk Hlen Hnd Hics Hwf HI.
+    destruct (gpre_init c d ics input HI) as [HI0 He0].
+    unfold step_x. rewrite Hd. unfold outer_pre. set (d0 := pre_init c d) in *.
+    set (new := if opk_eqb k NO_OP then last d0 else k).
+    unfold composite_ok in Hk. rewrite forallb_forall in Hk.
+    destruct HI0 as [HIa Hr0]. specialize (Hk _ Hr0). fold new in Hk.
+    apply andb_true_iff in Hk. destruct Hk as [Hk Hw].
+    apply andb_true_iff in Hk. destruct Hk as [H5 Hmem]. apply Z.leb_le in H5. apply mem_opk_in in Hmem.
+    destruct (gready_select d0 ics input new (conj HIa Hr0) Hw) as (HS & He1 & HI1 & Hc1 & _).
+    set (d1 := if wrap_needed c (last d0) new then wrap d0 else d0) in *.
+    fold (realias (b_sel (cur d1)) ns).
+    eexists. split; [reflexivity|].
+    assert (Hlen1 : List.length ns = List.length (b_sel (cur d1))).
+    { rewrite Hlen. rewrite <- (cur_cols_pre_init d). fold d0. rewrite <- Hc1.
+      unfold cur_cols, out_cols. apply map_length. }
+    destruct HS as (Hs & Hi & Hdi & Ho & Hl).
+    split.
+    - unfold spec_x. rewrite <- He0, <- He1.
+      unfold eval_df. cbn [cur done].
+      change (source {| done := done d1; cur := set_sel (cur d1) (realias (b_sel (cur d1)) ns); last := new |} input)
+        with (source d1 input).
+      rewrite (eval_gsimple (cur d1)) by assumption.
+      rewrite (eval_gsimple (set_sel (cur d1) _)) by assumption.
+      cbn [set_sel b_sel b_where cols rows]. rewrite out_cols_realias by exact Hlen1. f_equal.
+      apply map_ext. intro r. apply proj_map_fst. apply map_fst_realias. exact Hlen1.
+    - destruct HI1 as [(_ & _ & _ & Hn1 & Hn2) _].
+      split; [|exact Hmem]. unfold GInv. cbn [cur last set_sel b_sel b_distinct b_order b_limit].
+      change (src_cols {| done := done d1; cur := set_sel (cur d1) (realias (b_sel (cur d1)) ns); last := new |} ics)
+        with (src_cols d1 ics).
+      rewrite out_cols_realias by exact Hlen1.
+      refine (conj _ (conj _ (conj _ (conj _ _)))); try (intro; first [lia | assumption]); assumption.
+  Qed.
+
+  (** ** dropna: three sequential steps of the core compiler, then the method's own tag *)
+  Theorem dropna_correct k d ics input how thresh subset :
+    deco "dropna"%string = Some k -> kind_reach_ok k = true ->
+    ~ In nn (cur_cols d) -> incl subset (cur_cols d) ->
+    dropna_guard how thresh (match subset with [] => cur_cols d | _ => subset end) = true ->
+    cols input = ics -> wf_frame input -> GInvR c d ics ->
+    exists d', step_x c deco d (XDropna how thresh subset) = Some d' /\
+               eval_df d' input = spec_x (XDropna how thresh subset) (eval_df d input) /\ GInvR c d' ics.
+  Proof.
+    intros Hd Hk Hnn Hsub Hguard Hics Hwf HI.
+    unfold step_x. rewrite Hd.
+    destruct (outer_pre_ok k d ics input HI) as (He1 & HI1 & Hc1 & Hl1 & Hreach).
+    destruct (outer_pre c k d) as [d1 new] eqn:Eo. cbn [fst snd] in *.
+    assert (Hnew : In new (reach c)).
+    { apply Hreach. unfold kind_reach_ok in Hk. rewrite forallb_forall in Hk.
+      destruct (gpre_init c d ics input HI) as [[_ Hr0] _]. apply mem_opk_in. apply (Hk _ Hr0). }
+    set (all := cur_cols d1) in *.
+    set (chk := match subset with [] => all | _ => subset end).
+    assert (Hchk : incl chk all).
+    { subst chk. destruct subset; [apply incl_refl|]. rewrite Hc1. exact Hsub. }
+    assert (Hg : dropna_guard how thresh chk = true).
+    { subst chk. rewrite Hc1. exact Hguard. }
+    rewrite Hg. clear Hg.
+    assert (Hnda : NoDup all) by (destruct HI1 as [(_&_&_&_&Hn) _]; exact Hn).
+    assert (Hnna : ~ In nn all) by (rewrite Hc1; exact Hnn).
+    (* step 1 is a select step of the core compiler *)
+    set (item := (num_nulls_expr chk, "num_nulls"%string)).
+    set (items1 := passthrough all ++ [item]).
+    assert (E3 : {| done := done (pre_wrap c (OSelect []) (pre_init c d1));
+                    cur := set_sel (cur (pre_wrap c (OSelect []) (pre_init c d1)))
+                             (b_sel (cur (pre_wrap c (OSelect []) (pre_init c d1))) ++ [item]);
+                    last := new_kind c (OSelect []) (last d1) |} = step c d1 (OSelect items1)).
+    { destruct (gpre_wrap c Hcfg (pre_init c d1) ics input (OSelect []) (proj1 (gpre_init c d1 ics input HI1)))
+        as [(HS & _) _].
+      destruct (HS ltac:(simpl; lia)) as (Hs & _).
+      unfold step. rewrite (pre_init_idem c d1 Hl1) in *.
+      change (pre_wrap c (OSelect items1) d1) with (pre_wrap c (OSelect []) d1).
+      cbn [body]. f_equal. f_equal. subst items1. f_equal.
+      rewrite Hs. f_equal. change (out_cols (b_sel (cur (pre_wrap c (OSelect []) d1))))
+        with (cur_cols (pre_wrap c (OSelect []) d1)).
+      rewrite <- (pre_init_idem c d1 Hl1) at 1. apply cur_cols_pre. }
+    rewrite E3. clear E3.
+    assert (Hoc1 : out_cols items1 = all ++ [nn]).
+    { subst items1. rewrite out_cols_app, out_cols_passthrough. reflexivity. }
+    assert (Hok1 : op_ok c d1 ics (OSelect items1) = true).
+    { unfold op_ok. rewrite Hoc1. apply nodupb_complete.
+      apply NoDup_app_snoc; assumption. }
+    assert (Hhf1 : hf_ok c d1 ics (OSelect items1) = true).
+    { apply hf_ok_select_vis. intros it n Hit Hn. subst items1. apply in_app_iff in Hit.
+      destruct Hit as [Hit|[<-|[]]].
+      - unfold passthrough in Hit. apply in_map_iff in Hit. destruct Hit as [a [<- Ha]].
+        simpl in Hn. destruct Hn as [<-|[]]. exact Ha.
+      - apply Hchk. apply ecols_num_nulls. exact Hn. }
+    destruct (gstep_correct c Hcfg Hlim d1 ics input _ Hics Hwf HI1 Hok1 Hhf1) as [Ev3 HI3].
+    destruct (gstep_select_post d1 ics items1 HI1) as (Ps3 & _).
+    set (d3 := step c d1 (OSelect items1)) in *.
+    assert (Hc3 : cur_cols d3 = all ++ [nn]) by (unfold cur_cols; rewrite Ps3; exact Hoc1).
+    (* step 2: where num_nulls < k *)
+    fold nn. fold (dropna_test how thresh chk).
+    assert (Hhf2 : hf_ok c d3 ics (OWhere (dropna_test how thresh chk)) = true).
+    { apply hf_ok_where_vis. intros n Hn. simpl in Hn. destruct Hn as [<-|[]].
+      rewrite Hc3. apply in_or_app. right. left. reflexivity. }
+    assert (Hok2 : op_ok c d3 ics (OWhere (dropna_test how thresh chk)) = true) by reflexivity.
+    destruct (gstep_correct c Hcfg Hlim d3 ics input _ Hics Hwf HI3 Hok2 Hhf2) as [Ev4 HI4].
+    destruct (gstep_where_post d3 ics (dropna_test how thresh chk) HI3) as ((_ & Hi4 & _) & Hc4).
+    set (d4 := step c d3 (OWhere (dropna_test how thresh chk))) in *.
+    (* step 3: select the original columns *)
+    assert (Hok3 : op_ok c d4 ics (OSelect (passthrough all)) = true).
+    { unfold op_ok. rewrite out_cols_passthrough. apply nodupb_complete. exact Hnda. }
+    assert (Hin4 : forall n, In n all -> In n (cur_cols d4)).
+    { intros n Hn. rewrite Hc4, Hc3. apply in_or_app. left. exact Hn. }
+    assert (Hhf3 : hf_ok c d4 ics (OSelect (passthrough all)) = true).
+    { apply hf_ok_select_vis. intros it n Hit Hn.
+      unfold passthrough in Hit. apply in_map_iff in Hit. destruct Hit as [a [<- Ha]].
+      simpl in Hn. destruct Hn as [<-|[]]. apply Hin4. exact Ha. }
+    destruct (gstep_correct c Hcfg Hlim d4 ics input _ Hics Hwf HI4 Hok3 Hhf3) as [Ev5 HI5].
+    destruct (gstep_select_post d4 ics (passthrough all) HI4) as (Ps5 & Pd5 & Po5 & Pl5).
+    pose proof (src_cols_pre d4 (OSelect (passthrough all)) ics) as Hsrc5.
+    rewrite <- src_cols_step in Hsrc5.
+    set (d5 := step c d4 (OSelect (passthrough all))) in *.
+    eexists. split; [reflexivity|]. split.
+    - change (eval_df (set_last d5 new) input) with (eval_df d5 input).
+      rewrite Ev5, Ev4, Ev3.
+      unfold spec_x. rewrite <- He1.
+      exact (dropna_frames (eval_df d1 input) how thresh chk (wf_eval_block _ _) Hnda Hnna).
+    - split; [|exact Hnew].
+      destruct HI5 as [(_ & _ & _ & Hn1 & Hn2) _].
+      unfold GInv. change (cur (set_last d5 new)) with (cur d5).
+      change (last (set_last d5 new)) with new.
+      change (src_cols (set_last d5 new) ics) with (src_cols d5 ics).
+      refine (conj _ (conj _ (conj _ (conj _ _)))); try (intro; assumption); [|exact Hn1|exact Hn2].
+      intros _. rewrite Ps5, out_cols_passthrough. split; [reflexivity|]. split; [|exact Pd5].
+      intros n Hn. destruct Hsrc5 as [-> | ->]; [apply Hi4|]; apply Hin4; exact Hn.
+  Qed.
+
+  (** ** Every list over the widened alphabet *)
+  Definition deco_ok : bool :=
+    match deco "fillna"%string, deco "replace"%string, deco "toDF"%string, deco "dropna"%string with
+    | Some kf, Some kr, Some kt, Some kd => composite_ok kf && composite_ok kr && composite_ok kt && kind_reach_ok kd
+    | _, _, _, _ => false
+    end.
+
   Definition x_ok (d : df) (ics : list string) (x : xop) : bool :=
     match x with
-    | XCore u => op_ok c d ics (desugar (cur_cols d) u)
+    | XCore u => op_ok c d ics (desugar (cur_cols d) u) && hf_ok c d ics (desugar (cur_cols d) u)
     | XFillna _ | XReplace _ _ => true
+    | XToDF ns => Nat.eqb (List.length ns) (List.length (cur_cols d)) && nodupb ns
+    | XDropna how thresh subset =>
+        negb (mem nn (cur_cols d)) && forallb (fun s => mem s (cur_cols d)) subset
+        && dropna_guard how thresh (match subset with [] => cur_cols d | _ => subset end)
     | _ => false
     end.
   Fixpoint xs_ok (d : df) (ics : list string) (xs : list xop) : bool :=
@@ -188,25 +593,46 @@ Section ExtProof.
                   match step_x c deco d x with Some d' => xs_ok d' ics xs' | None => false end
     end.
 
-  Theorem xchain_correct kf kr xs : forall d ics input,
-    deco "fillna"%string = Some kf -> composite_ok kf = true ->
-    deco "replace"%string = Some kr -> composite_ok kr = true ->
-    cols input = ics -> wf_frame input -> InvR c d ics -> xs_ok d ics xs = true ->
+  Theorem xstep_correct d ics input x :
+    deco_ok = true -> cols input = ics -> wf_frame input -> GInvR c d ics -> x_ok d ics x = true ->
+    exists d1, step_x c deco d x = Some d1 /\
+               eval_df d1 input = spec_x x (eval_df d input) /\ GInvR c d1 ics.
+  Proof.
+    intros Hdk Hics Hwf HI Hx. unfold deco_ok in Hdk.
+    destruct (deco "fillna"%string) as [kf|] eqn:Df; [|discriminate].
+    destruct (deco "replace"%string) as [kr|] eqn:Dr; [|discriminate].
+    destruct (deco "toDF"%string) as [kt|] eqn:Dt; [|discriminate].
+    destruct (deco "dropna"%string) as [kd|] eqn:Dd; [|discriminate].
+    apply andb_true_iff in Hdk. destruct Hdk as [Hdk Hkd].
+    apply andb_true_iff in Hdk. destruct Hdk as [Hdk Hkt].
+    apply andb_true_iff in Hdk. destruct Hdk as [Hkf Hkr].
+    destruct x; simpl in Hx; try discriminate.
+    - apply andb_true_iff in Hx. destruct Hx as [Hop Hhf].
+      exists (step c d (desugar (cur_cols d) u)). split; [reflexivity|].
+      destruct (gstep_correct c Hcfg Hlim d ics input _ Hics Hwf HI Hop Hhf) as [He HI'].
+      split; [|exact HI']. rewrite He. reflexivity.
+    - apply andb_true_iff in Hx. destruct Hx as [Hlen Hnd].
+      apply Nat.eqb_eq in Hlen. apply nodupb_sound in Hnd.
+      apply (toDF_correct kt); auto.
+    - apply (fillna_correct kf); auto.
+    - apply (replace_correct kr); auto.
+    - apply andb_true_iff in Hx. destruct Hx as [Hx Hg].
+      apply andb_true_iff in Hx. destruct Hx as [Hnn Hsub].
+      apply (dropna_correct kd); auto.
+      + intro Hin. apply mem_In in Hin. rewrite Hin in Hnn. discriminate.
+      + intros s Hs. rewrite forallb_forall in Hsub. apply mem_In. apply Hsub. exact Hs.
+  Qed.
+
+  Theorem xchain_correct xs : forall d ics input,
+    deco_ok = true -> cols input = ics -> wf_frame input -> GInvR c d ics -> xs_ok d ics xs = true ->
     exists d', run_x c deco d xs = Some d' /\ eval_df d' input = spec_xrun xs (eval_df d input).
   Proof.
-    induction xs as [|x xs IH]; intros d ics input Hf Hkf Hr Hkr Hics Hwf HI Hok; simpl.
+    induction xs as [|x xs IH]; intros d ics input Hdk Hics Hwf HI Hok; simpl.
     - exists d. split; reflexivity.
     - simpl in Hok. apply andb_true_iff in Hok. destruct Hok as [Hx Hrest].
-      assert (Hstep : exists d1, step_x c deco d x = Some d1 /\
-                                 eval_df d1 input = spec_x x (eval_df d input) /\ InvR c d1 ics).
-      { destruct x; simpl in Hx; try discriminate.
-        - exists (step c d (desugar (cur_cols d) u)). split; [reflexivity|].
-          destruct (step_correct c Hcfg Hlim d ics input _ Hics Hwf HI Hx) as [He HI'].
-          split; [|exact HI']. rewrite He. reflexivity.
-        - apply (fillna_correct kf); auto.
-        - apply (replace_correct kr); auto. }
-      destruct Hstep as (d1 & Hs & He & HI1). rewrite Hs in Hrest |- *.
-      destruct (IH d1 ics input Hf Hkf Hr Hkr Hics Hwf HI1 Hrest) as (d' & Hrun & Hev).
+      destruct (xstep_correct d ics input x Hdk Hics Hwf HI Hx) as (d1 & Hs & He & HI1).
+      rewrite Hs in Hrest |- *.
+      destruct (IH d1 ics input Hdk Hics Hwf HI1 Hrest) as (d' & Hrun & Hev).
       exists d'. split; [exact Hrun|]. rewrite Hev, He. reflexivity.
   Qed.
 End ExtProof.
